@@ -548,12 +548,19 @@ def run(ctx: Ctx):
         da.check_part(ctx, 200 if not ctx.thorough else 3000, "C10")
     finally:
         da.UNM_CHOICES[0] = [0, 0, 0.25]
+    # user-controlled parts next to managed siblings and inner snapshots, the same module under several names in one session
+    from .. import twins
+    TW = [c["source"] for c in cases if c["snips"] and "snapshot(" in c["old"]][:1] + [c["source"] for c in cases if c["snips"]][:2 if not ctx.thorough else 10]
+    twins.check(ctx, "C10", TW)
     # Is(...) parts below lists / tuples / dict displays / constructor calls nested in each other vs Model/Nest.v
     from .. import nestassign as na
     na.check_part(ctx, 400 if not ctx.thorough else 5000, "C10", unm_choices=(0.25, 0.4))
 
 
 def replay(ctx: Ctx, data):
+    if isinstance(data.get("case"), dict) and data["case"].get("kind") == "twins":
+        from .. import twins
+        return twins.replay(data["case"])
     if isinstance(data.get("case"), dict) and data["case"].get("kind") == "nest":
         from .. import nestassign as na
         return na.replay_case(data["case"])
